@@ -35,7 +35,7 @@ ASSUMPTIONS = ["the replica applies each controller's documented per-step update
                "values: |a-b| <= 5e-5 + 5e-5|b| (two solver runs from different start points, each stopped at 1e-8 MVA)"]
 REACH_PROBES = ["recycled_power_flow_executed", "batch_read_path_taken", "only_v_results", "intermediate_dump",
                 "step_failed_then_next_step_checked", "second_run_on_same_net", "line_parameter_controlled",
-                "multi_index_controller"]
+                "multi_index_controller", "tap_controller_in_loop"]
 
 CTRL_TARGETS = [("load", "p_mw"), ("load", "q_mvar"), ("load", "scaling"), ("sgen", "p_mw"), ("sgen", "q_mvar"),
                 ("sgen", "scaling"), ("storage", "p_mw"), ("gen", "p_mw"), ("gen", "vm_pu"), ("ext_grid", "vm_pu"),
@@ -100,6 +100,9 @@ def generate(rng, idx, tier):
                    "ints": [rng.randint(-2, 2) for _ in range(12)],
                    "recycle": True if batchy else rng.choice([True, True, True, False]),
                    "diverge_at": rng.choice([None, None, None, rng.randrange(12)])})
+    if not batchy and rng.random() < 0.3:
+        ol.append({"op": "tap_control", "kind": rng.choice(["discrete", "continuous"]), "row": rng.randrange(100),
+                   "vm_set": round(rng.uniform(0.98, 1.03), 3), "half": rng.choice([0.02, 0.015])})
     logs = []
     for _ in range(rng.randint(1, 5)):
         t, v = rng.choice(LOG_VARS)
@@ -316,7 +319,7 @@ def execute(ep, ctx):
                         rows.append(x)
                 if var == "tap_pos":
                     rows = [r for r in rows if not pd.isna(net[el].at[r, "tap_pos"])]
-                    if not rows:
+                    if not rows or "trafo.tapctrl" in ctrl_desc:
                         continue
                 profiles = {f"{el}_{var}_{r}_{len(ctrl_desc)}": _profile_values(net, op, r) for r in rows}
                 names = list(profiles)
@@ -337,6 +340,23 @@ def execute(ep, ctx):
                 if multi:
                     ctx.probe("multi_index_controller")
                 ctx.event("const_control", el, var, rows, op["source"])
+            elif k == "tap_control":
+                from pandapower.control import DiscreteTapControl, ContinuousTapControl
+                cands = [t for t in net.trafo.index if not pd.isna(net.trafo.at[t, "tap_pos"])
+                         and net.trafo.at[t, "tap_side"] in ("hv", "lv")
+                         and not ("tap_dependency_table" in net.trafo.columns
+                                  and bool(net.trafo.at[t, "tap_dependency_table"]))]
+                t = ops.pick(cands, op["row"])
+                if t is None or any(d.startswith("trafo.") for d in ctrl_desc):
+                    ctx.event("tap_control", "noop")
+                    continue
+                if op["kind"] == "discrete":
+                    DiscreteTapControl(net, int(t), op["vm_set"] - op["half"], op["vm_set"] + op["half"])
+                else:
+                    ContinuousTapControl(net, int(t), op["vm_set"], tol=1e-4)
+                ctrl_desc.append("trafo.tapctrl")
+                ctx.probe("tap_controller_in_loop")
+                ctx.event("tap_control", op["kind"], int(t))
             elif k == "output_writer":
                 ow_op = op
             elif k == "run_timeseries":
@@ -457,6 +477,7 @@ def _exec_run(net, op, ow_op, i, ctx, ctrl_desc, tmpdir, owm):
         ctx.probe("batch_read_path_taken")
     # ---- reference: fresh power flow per step on the replica ---------------------------------------
     ref = {}          # (table, var) -> {step: array by element index (Series)}
+    has_tapctrl = "trafo.tapctrl" in ctrl_desc
     ref_failed = {}
     ref_abnormal = {}
     ref_exc_types = set()
@@ -469,8 +490,15 @@ def _exec_run(net, op, ow_op, i, ctx, ctrl_desc, tmpdir, owm):
     for t in ts_list:
         for c in order:
             c.time_step(replica, t)
-        fresh = oracles.scrubbed_copy(replica)
-        _, e = c08._plain_call(lambda: run_ref(fresh, **op["kw"]))
+        if has_tapctrl:
+            # controllers with state (tap positions they set persist): the replica itself is scrubbed and the
+            # step is evaluated by a fresh control loop on it
+            from pandapower.control import run_control as _rc
+            fresh = oracles.scrub_inplace(replica)
+            _, e = c08._plain_call(lambda: _rc(fresh, run=run_ref, **op["kw"]))
+        else:
+            fresh = oracles.scrubbed_copy(replica)
+            _, e = c08._plain_call(lambda: run_ref(fresh, **op["kw"]))
         ref_failed[t] = e is not None
         ref_abnormal[t] = False
         if e is None and op["run"] == "runpp":
@@ -494,6 +522,8 @@ def _exec_run(net, op, ow_op, i, ctx, ctrl_desc, tmpdir, owm):
         el, var = d.split(".")
         if el == "line":
             return "line-param"
+        if var == "tapctrl":
+            return "tap-controller"
         if el in ("trafo", "trafo3w"):
             return "trafo-param"
         if el in ("gen", "ext_grid"):
